@@ -32,7 +32,8 @@ KINDS = ["req", "dflt", "fact", "das", "noinit", "initvar", "initvar_d", "nested
 
 
 def gen_spec(rng: random.Random) -> dict:
-    case = rng.choice([1, 1, 1, 2, 2, 3, 4, 5])
+    case = rng.choice([1, 1, 1, 2, 2, 3, 4, 5, 6])
+    frozen = case != 5 and rng.random() < 0.15
     counter = [0]
 
     def fname():
@@ -57,7 +58,18 @@ def gen_spec(rng: random.Random) -> dict:
         return fs
 
     classes = []
-    if case == 1:
+    if case == 6:
+        # diamond: K0 <- K1, K2 <- K3; dataclass field order of K3 follows the reversed MRO
+        dec = [True, rng.random() < 0.7, rng.random() < 0.7, True]
+        classes.append({"name": "K0", "base": None, "decorated": dec[0], "fields": gen_fields(rng.randint(1, 2), True, False)})
+        base_has_default = any(f["kind"] not in ("req", "initvar") for f in classes[0]["fields"])
+        classes.append({"name": "K1", "base": "K0", "decorated": dec[1],
+                        "fields": gen_fields(rng.randint(1, 2), False, False)})
+        classes.append({"name": "K2", "base": "K0", "decorated": dec[2],
+                        "fields": gen_fields(rng.randint(1, 2), False, False)})
+        classes.append({"name": "K3", "base": "K1", "bases": ["K1", "K2"], "decorated": dec[3],
+                        "fields": gen_fields(rng.randint(0, 2), False, False)})
+    elif case == 1:
         classes.append({"name": "K0", "base": None, "decorated": True,
                         "fields": gen_fields(rng.randint(1, 5), True, True)})
     else:
@@ -89,12 +101,20 @@ def gen_spec(rng: random.Random) -> dict:
         post = {"assigns": assigns}
     for c in classes:
         c["post_init"] = None
+    if frozen and post is not None:
+        post["assigns"] = []  # assignments raise on a frozen instance
     top["post_init"] = post
-    return {"case": case, "classes": classes}
+    return {"case": case, "classes": classes, "frozen": bool(frozen)}
 
 
 def all_fields(spec: dict, cname: str) -> List[dict]:
     by = {c["name"]: c for c in spec["classes"]}
+    if by[cname].get("bases"):
+        # K3(K1, K2): MRO K3, K1, K2, K0 -> dataclass collects fields over the reversed MRO
+        out = []
+        for n in ("K0", "K2", "K1", cname):
+            out.extend(by[n]["fields"])
+        return out
     chain = []
     c = by[cname]
     while c is not None:
@@ -118,8 +138,10 @@ def render(spec: dict) -> str:
     for c in spec["classes"]:
         if c["decorated"]:
             lines.append("@with_fields_set")
-        lines.append("@dataclass(init=False)" if c.get("handwritten") else "@dataclass")
-        lines.append("class %s%s:" % (c["name"], "(%s)" % c["base"] if c["base"] else ""))
+        fz = "frozen=True" if spec.get("frozen") else ""
+        lines.append("@dataclass(init=False)" if c.get("handwritten") else "@dataclass(%s)" % fz)
+        bases = ", ".join(c["bases"]) if c.get("bases") else c["base"]
+        lines.append("class %s%s:" % (c["name"], "(%s)" % bases if bases else ""))
         body = []
         for f in c["fields"]:
             md = []
@@ -200,11 +222,13 @@ class Shape:
         self.post_assigns = set(pi["assigns"]) if pi else set()
         # an undecorated class is "supported" (tracked) only through a decorated base
         chain = []
-        c = by[cname]
-        while c is not None:
+        todo = [cname]
+        while todo:
+            c = by[todo.pop()]
             chain.append(c)
-            c = by[c["base"]] if c["base"] else None
+            todo.extend(c.get("bases") or ([c["base"]] if c["base"] else []))
         self.tracked = any(c["decorated"] for c in chain)
+        self.frozen = bool(spec.get("frozen"))
 
     def alias(self, n: str) -> str:
         return self.by_name[n]["alias"] or n
@@ -456,6 +480,9 @@ def child_run(plan: dict) -> dict:
             inst = slots[slot]
             sh = inst.shape
             if not sh.real and kind in ("assign", "set", "unset", "replace", "reinit"):
+                stats["skipped"] += 1
+                continue
+            if sh.frozen and kind in ("assign", "nest"):
                 stats["skipped"] += 1
                 continue
             if kind == "assign":
